@@ -50,6 +50,17 @@ class OpsMixin:
                 continue  # this replica does not take part in the step
             if res[0] == "exc" and res[1] == "SubqueryError" and rep == "sqlite" and expect is None:
                 self.stats["subquery_error"] += 1
+                if "O8" in self.fam:
+                    self.stats["o83_evaluated"] += 1
+                if "O8" in self.fam and self.in_simple_fragment(step, inputs, new_m):
+                    self.violate(
+                        "C08",
+                        "O8.3",
+                        f"`{step['op']}` raised SubqueryError although the pipeline stays inside the simple fragment "
+                        f"(element-wise mutate/filter, select, rename, arrange, one grouped summarize, final slice_head): {'/'.join(new_m.verbs)}",
+                        op=step["op"],
+                        tail="/".join(new_m.verbs[-3:]),
+                    )
                 res, rec_ok = self.subquery_recover(step, inputs, real_fn, rep, reals, res, subject)
                 recovered = recovered or rec_ok
             results[rep] = res
@@ -135,7 +146,8 @@ class OpsMixin:
         # a plain alias() cuts every reference held from before: it is used only in the C08 profile,
         # which addresses columns by name (C. / t[...] of the table the verb is applied to) and
         # holds no references; elsewhere alias(keep_col_refs=True) keeps the SQL replica alive
-        plain = "O8" in self.fam
+        # (a plain alias() cuts every reference held so far: used only while the run holds none)
+        plain = "O8" in self.fam and not self.cfg.get("hold_refs", False)
 
         def go():
             aliased = [t >> pdt.alias() if plain else t >> pdt.alias(keep_col_refs=True) for t in reals]
@@ -145,10 +157,32 @@ class OpsMixin:
         self.stats["subquery_recover_attempts"] += 1
         if res2[0] == "ok":
             return res2, True
-        if "O8" in self.fam and plain:
+        if "O8" in self.fam:
             # judged after all replicas ran: only if the Polars replica accepts the same step
             self._recovery_failed = (step, res2)
         return res, False
+
+    SIMPLE_VERBS = {"src", "mutate", "filter", "select", "drop", "rename", "arrange", "group_by", "ungroup", "summarize", "slice_head", "recompute"}
+
+    def in_simple_fragment(self, step, inputs, new_m) -> bool:
+        """C08: pipelines of element-wise mutate/filter, select, rename, arrange, ONE grouped summarize
+        and a FINAL slice_head never need a subquery"""
+        if new_m is None or len(inputs) != 1:
+            return False
+        verbs = new_m.verbs
+        if any(v not in self.SIMPLE_VERBS for v in verbs):
+            return False
+        if verbs.count("summarize") > 1 or verbs.count("slice_head") > 1:
+            return False
+        if "slice_head" in verbs[:-1]:
+            return False
+        if "summarize" in verbs:
+            # the one summarize must be grouped
+            i = verbs.index("summarize")
+            if "group_by" not in verbs[:i] or new_m.ung is not None:
+                return False
+        self.note("simple_fragment_subquery_check")
+        return True
 
     def crash_prop(self, subject):
         return self.profile.get("crash_subjects", {}).get(subject)
@@ -156,6 +190,8 @@ class OpsMixin:
     def on_unexpected_exception(self, step, rep, res, subject):
         cls = res[1]
         self.stats[f"exc:{rep}:{cls}"] += 1
+        if rep == "polars" and cls == "SubqueryError" and "O8" in self.fam:
+            self.violate("C08", "O8.4", f"`{step['op']}` raised SubqueryError on a Polars-backed table", op=step["op"])
         if rep == "sqlite" and cls in ("SubqueryError", "NotSupportedError"):
             self.stats["sql_refused"] += 1
             return
